@@ -234,6 +234,10 @@ def F51():
     finally:
         signal.alarm(0)
     return n != 4096
+def F52():
+    from formulaic.transforms import poly
+    x = np.array([100, 20, -50], dtype="int8")
+    return not np.allclose(poly(x, 3, raw=True, _state={}), poly(x.astype(float), 3, raw=True, _state={}))
 
 ids = sys.argv[1:] or [f"F{i}" for i in range(1, 26)]
 for i in ids:
